@@ -337,9 +337,12 @@ class CurveOfGrowth(ProfileBase):
         profile = self.profile
         diff = np.diff(profile) <= 0
         if np.any(diff):
-            idx = np.argmax(diff)  # first non-monotonic point
-            radius = radius[0:idx]
-            profile = profile[0:idx]
+            # np.diff element idx compares points idx and idx + 1, so
+            # point idx is the last one of the monotonically increasing
+            # region and must be kept
+            idx = np.argmax(diff)
+            radius = radius[0:idx + 1]
+            profile = profile[0:idx + 1]
 
         if len(radius) < 2:
             raise ValueError('The curve-of-growth profile is not '
